@@ -328,6 +328,40 @@ def run(ctx: Any, prog: Program) -> None:
     from rules.c16_helpers import q6_helper_args
     q6_helper_args(ctx, prog)
 
+    # Q8: kv_order names keys of `keyvalues`.  The keyvalues dict is keyed by the casefolded name and export() sorts its items by
+    # `kv_order.get(<key>)`: an entry of kv_order that is not casefolded matches no key, that keyvalue sorts to the end, and the exported
+    # order (hence the re-exported text) differs from the file that was read.
+    ctx.rule('C16.Q8', 'names recorded in kv_order are the casefolded keys under which the keyvalue is stored', floor=1)
+    n_q8 = 0
+    for q_, fns_ in fgd.all_funcs().items():
+        for fn_ in fns_:
+            for c8 in [c for c in walk_no_nested(fn_) if isinstance(c, ast.Call) and isinstance(c.func, ast.Attribute) and c.func.attr in ('append', 'insert') and isinstance(c.func.value, ast.Attribute) and c.func.value.attr == 'kv_order' and c.args]:
+                e8 = c8.args[-1]
+                defs8 = [a.value for a in walk_no_nested(fn_) if isinstance(a, ast.Assign) and any(isinstance(t, ast.Name) and isinstance(e8, ast.Name) and t.id == e8.id for t in a.targets)]
+                forms8 = defs8 if isinstance(e8, ast.Name) and defs8 else [e8]
+                folded = all(isinstance(f8, ast.Call) and isinstance(f8.func, ast.Attribute) and f8.func.attr in ('casefold', 'lower') for f8 in forms8)
+                n_q8 += 1
+                ctx.check('C16.Q8', folded, fgd, c8, f'{q_} records `{U(forms8[0])[:40]}` in kv_order, but the keyvalue is stored under the casefolded name: export() looks the key up in kv_order to sort, finds nothing for a name '
+                          'with capitals and writes that keyvalue last - the definition order of the file is lost', func=q_, text=f'{q_}: kv_order entry is the casefolded key')
+    ctx.shape('C16.Q8', n_q8 >= 1, fgd, fgd.tree, f'{n_q8} appends to kv_order found (two confirmed by hand in EntityDef.parse)', text='kv_order appends')
+    # Q9: export() writes every helper.  The only helpers it may leave out are the extension helpers when custom syntax is off (documented);
+    # any other `continue` in the helper loop drops a helper that parse() would have read back.
+    ctx.rule('C16.Q9', 'EntityDef.export writes every helper; only extension helpers are skipped, and only without custom syntax', floor=1)
+    ex9 = fgd.func('EntityDef.export')
+    loops9 = [l for l in walk_no_nested(ex9) if isinstance(l, ast.For) and any(isinstance(x, ast.Attribute) and x.attr == 'helpers' for x in ast.walk(l.iter))]
+    ctx.shape('C16.Q9', len(loops9) == 1 and dotted(loops9[0].iter) == 'self.helpers', fgd, ex9, 'one `for helper in self.helpers` loop expected in EntityDef.export', func='EntityDef.export', text='helper loop')
+    for lp9 in loops9[:1]:
+        if dotted(lp9.iter) != 'self.helpers':
+            break
+        skips = [x for x in ast.walk(lp9) if isinstance(x, (ast.Continue, ast.Break))]
+        for sk in skips:
+            tests = [a.test for a in _anc16(fgd, sk, lp9) if isinstance(a, ast.If)]
+            conj = [v for t in tests for v in (t.values if isinstance(t, ast.BoolOp) and isinstance(t.op, ast.And) else [t])]
+            documented = any(isinstance(v, ast.UnaryOp) and isinstance(v.op, ast.Not) and dotted(v.operand) == 'custom_syntax' for v in conj) and any(isinstance(v, ast.Attribute) and v.attr == 'IS_EXTENSION' for v in conj)
+            ctx.check('C16.Q9', documented, fgd, sk, f'EntityDef.export leaves the helper loop by `{U(sk)}` under `{" and ".join(U(t)[:50] for t in tests) or "no condition"}`: a helper other than an extension helper (without custom syntax) '
+                      'is not written, so the parsed-back definition has fewer helpers than the exported one', func='EntityDef.export', text=f'skip under `{" and ".join(U(t)[:30] for t in tests)}` is the documented one')
+        ctx.shape('C16.Q9', bool(skips), fgd, lp9, 'the extension-helper skip was not found in the helper loop', func='EntityDef.export', text='extension helpers skipped without custom syntax')
+
     # Q3 (record-local values): every argument of a record constructor inside a parse loop is assigned in the same iteration before it is used
     ctx.rule('C16.Q7', 'values put into a parsed record (Resource / KVDef / IODef) are assigned in the iteration that builds the record, never carried over from the previous one', floor=1)
     RECORDS = {'Resource', 'KVDef', 'IODef'}
@@ -1115,6 +1149,8 @@ def run(ctx: Any, prog: Program) -> None:
 
 
 MUTANTS: List[Dict[str, Any]] = [
+    {'id': 'kv_order_keeps_capitals', 'file': 'fgd.py', 'find': "                    entity.kv_order.append(kv_def.name.casefold())\n                kv_tags_map[tags] = kv_def\n", 'replace': "                    entity.kv_order.append(kv_def.name)\n                kv_tags_map[tags] = kv_def\n", 'expect': 'C16.Q8', 'note': 'round 11'},
+    {'id': 'export_skips_unknown_helpers', 'file': 'fgd.py', 'find': "            if helper.IS_EXTENSION and not custom_syntax:\n                continue\n            if isinstance(helper, HelperHalfGridSnap):", 'replace': "            if helper.IS_EXTENSION and not custom_syntax:\n                continue\n            if isinstance(helper, UnknownHelper) and not args:\n                continue\n            if isinstance(helper, HelperHalfGridSnap):", 'expect': 'C16.Q9', 'note': 'round 11'},
     {'id': 'choice_values_bare_when_all_digits', 'file': 'fgd.py', 'find': "                    try:\n                        float(value)\n                    except ValueError:\n                        value = f'\"{_fgd_escape(custom_syntax, value)}\"'", 'replace': "                    if not all(x in '0123456789-' for x in value):\n                        value = f'\"{_fgd_escape(custom_syntax, value)}\"'", 'expect': 'C16.Q4'},
     {'id': 'alias_entities_serialised_without_their_maps', 'file': '_engine_db.py', 'find': "    if ent.is_alias:\n        flags |= EntFlags.IS_ALIAS\n", 'replace': "    attr_maps = list(ent._iter_attrs())\n    if ent.is_alias:\n        flags |= EntFlags.IS_ALIAS\n        attr_maps = [{}, {}, {}]\n    [keyvalues, inputs, outputs] = attr_maps\n", 'extra': [{'file': '_engine_db.py', 'find': "        sum(1 for tag_map in ent.keyvalues.values() if tag_map),", 'replace': "        sum(1 for tag_map in keyvalues.values() if tag_map),"}], 'expect': 'C16.Q1'},
     {'id': 'ok_entity_maps_through_locals', 'file': '_engine_db.py', 'find': "    if ent.is_alias:\n        flags |= EntFlags.IS_ALIAS\n", 'replace': "    attr_maps = list(ent._iter_attrs())\n    if ent.is_alias:\n        flags |= EntFlags.IS_ALIAS\n    [keyvalues, inputs, outputs] = attr_maps\n", 'extra': [{'file': '_engine_db.py', 'find': "        sum(1 for tag_map in ent.keyvalues.values() if tag_map),", 'replace': "        sum(1 for tag_map in keyvalues.values() if tag_map),"}], 'expect': None, 'refuse_ok': True},
